@@ -1,6 +1,7 @@
 package mcrt
 
 import (
+	"reflect"
 	"fmt"
 	"runtime"
 	"strings"
@@ -194,6 +195,51 @@ func WMap[M any](m M) M {
 		}
 	}
 	return m
+}
+
+// RSlice / WSlice record a read / write of a slice's backing array as a whole (identified by the address of its
+// first element): a slice handed out by a method may alias a cached field, and library functions (sort, copy)
+// write through it without the rewriter seeing an assignment.
+func RSlice[S any](s S) S {
+	if sc := sched(); sc != nil && sc.races != nil {
+		if p := slicePtr(s, false); p != 0 {
+			sc.access(p, s, false, "slice")
+		}
+	}
+	return s
+}
+
+func WSlice[S any](s S) S {
+	if sc := sched(); sc != nil && sc.races != nil {
+		if p := slicePtr(s, false); p != 0 {
+			sc.access(p, s, true, "slice")
+		}
+	}
+	return s
+}
+
+// AppendW is for the first argument of append: appending writes into the backing array only when there is spare
+// capacity (otherwise a new array is allocated and the old one is only read).
+func AppendW[S any](s S) S {
+	if sc := sched(); sc != nil && sc.races != nil {
+		if p := slicePtr(s, true); p != 0 {
+			sc.access(p, s, true, "slice (append into spare capacity)")
+		} else if p := slicePtr(s, false); p != 0 {
+			sc.access(p, s, false, "slice")
+		}
+	}
+	return s
+}
+
+func slicePtr(s any, needSpare bool) uintptr {
+	v := reflect.ValueOf(s)
+	if !v.IsValid() || v.Kind() != reflect.Slice || v.IsNil() || v.Cap() == 0 {
+		return 0
+	}
+	if needSpare && v.Cap() == v.Len() {
+		return 0
+	}
+	return v.Pointer()
 }
 
 func mapPtr(m any) uintptr {
